@@ -235,8 +235,14 @@ pub fn metadata_of(cfg: &Cfg) -> Option<Metadata> {
 
 pub fn builder_of<W>(w: W, cfg: &Cfg) -> MuxerBuilder<W> {
     let mut b = MuxerBuilder::new(w);
+    // path bit 8: every setter is first called with a decoy (another codec, other numbers, even
+    // invalid ones) and then with the real configuration: the last call wins
+    let decoy = (cfg.path & 8) != 0;
     if cfg.video {
         let fps = bf(cfg.fps_bits);
+        if decoy {
+            b = b.video(vcodec((cfg.vcodec + 1) % 4), 1, 65_536, 1.0);
+        }
         b = if (cfg.path & 1) != 0 {
             b.set_video_track(vcodec(cfg.vcodec), cfg.width, cfg.height, fps)
         } else {
@@ -244,6 +250,15 @@ pub fn builder_of<W>(w: W, cfg: &Cfg) -> MuxerBuilder<W> {
         };
     }
     if let Some(a) = &cfg.audio {
+        if decoy {
+            b = if a.is_opus() {
+                b.audio(acodec(1), 44_100, 2)
+            } else if a.is_aac() {
+                b.set_audio_track(acodec(A_OPUS), 48_000, 300)
+            } else {
+                b.audio(acodec(1), 48_000, 2)
+            };
+        }
         b = if (cfg.path & 2) != 0 {
             b.set_audio_track(acodec(a.kind), a.rate, a.channels)
         } else {
